@@ -45,6 +45,34 @@ def check_multiline(events, case):
     return msgs, common.digest(r["page"] or ""), bool(exp)
 
 
+def check_between(job, case):
+    """an undocumented/documented option() written between a test/section/member declaration and the definition that
+    implements it still is an option(): only its own entry is judged"""
+    from .. import rstobs
+    decl, doc = job
+    between = [("option", ["BETWEEN_OPT", '"help between"', "ON"])]
+    if decl == "cpp_member":
+        events = [{"k": "cpp_class", "doc": 0}, {"k": "cpp_member", "doc": doc, "types": ["int"], "params": ["a"], "between": between}]
+    elif decl == "ct_add_section":
+        events = [{"k": "ct_add_test", "doc": 0}, {"k": "ct_add_section", "doc": doc, "between": between}]
+    else:
+        events = [{"k": "ct_add_test", "doc": doc, "between": between}]
+    text, r = modsearch.run_module(events, None, case)
+    msgs = []
+    if r["page"] is None:
+        msgs.append(f"error: pipeline failed on a well-formed module: {r['error']}")
+    else:
+        ents = [rstobs.abstract_entry(b) for b in rstobs.Page(r["page"]).entries()]
+        opts = [e for e in ents if e["kind"] == "option" and e["sig"] == "BETWEEN_OPT"]
+        if len(opts) != 1:
+            msgs.append(f"entries: option() written between a {decl} declaration and its implementation has {len(opts)} entries")
+        else:
+            f = dict(opts[0]["fields"])
+            if f.get("Default value") != "ON" or f.get("type") != "bool":
+                msgs.append(f"option-fields: BETWEEN_OPT shows {opts[0]['fields']}")
+    return {"viol": msgs, "obs": common.digest(r["page"] or ""), "nt": common.digest(job), "cls": msgs[0].split(":")[0] if msgs else None}
+
+
 def check(events, case):
     if any("\n" in v for ev in events for v in ev.get("values", [])):
         msgs, dg, nt = check_multiline(events, case)
@@ -71,16 +99,31 @@ def run(ctx):
                 if d:
                     ev["default"] = d
                 jobs += positions(ev)
+    # documented with a doccomment that has no text at all
+    for vals in ([], ["v"], ["a", "b"], ['""'], ['"q"']):
+        for dt in ([], [""]):
+            jobs += positions({"k": "set", "doc": 1, "values": vals, "name": "SELF_VAR", "doctext": dt})
+    for dt in ([], [""]):
+        jobs += positions({"k": "option", "doc": 1, "doctext": dt})
     case = common.rot(["lower", "upper", "mixed"], ctx.seed + 4)[0]
     ctx.cov["bounds"] = {"value_forms": FORMS, "core": CORE, "max_values_all_forms": k_all, "max_values_core": k_core,
                          "helps": HELPS, "defaults": DEFAULTS, "positions": 4, "command_case": case}
     ctx.sweep(functools.partial(check, case=case), jobs, space="set/option x forms x positions")
+    bjobs = [(d, doc) for d in ("ct_add_test", "ct_add_section", "cpp_member") for doc in (0, 1)]
+    ctx.sweep(functools.partial(check_between, case=case), bjobs, space="option between a declaration and its implementation",
+              selftest=2)
     ctx.assumptions += ["the default of an UNSET variable is not compared (no value text exists)",
                         "an option's help text is compared modulo one pair of surrounding quotes"]
     return RULE
 
 
 def replay(case):
+    if isinstance(case, list) and len(case) == 2 and isinstance(case[0], str):
+        for cs in ("lower", "upper", "mixed"):
+            m = check_between(tuple(case), cs)["viol"]
+            if m:
+                return m
+        return []
     for cs in ("lower", "upper", "mixed"):
         m = check(case, cs)["viol"]
         if m:
